@@ -87,6 +87,7 @@ func run(r *vk.Run) {
 	e.miscMethods()
 	if r.Shard == 0 || r.Only != "" {
 		e.requestMetadata()
+		e.responseMetadataPlumbing()
 	}
 
 	for k := 0; k < aliasN; k++ {
